@@ -1,0 +1,11 @@
+// +build verif
+
+package stack
+
+import "time"
+
+// VerifSetLinkAddrCacheParams replaces the link address cache of s by an empty
+// one with the given parameters. Call before any traffic.
+func (s *Stack) VerifSetLinkAddrCacheParams(ageLimit, resolutionTimeout time.Duration, resolutionAttempts int) {
+	s.linkAddrCache = newLinkAddrCache(ageLimit, resolutionTimeout, resolutionAttempts)
+}
